@@ -87,6 +87,15 @@ fn observe(bytes: &[u8], exp: &[((u32, u32), String, String)]) -> Result<Vec<Str
     }
 }
 
+/// is `obs` the "+"-join of one choice (ideal or as-is) per atom?
+fn atomwise(obs: &str, parts: &[(String, String)]) -> bool {
+    let n = parts.len();
+    (0..(1u32 << n)).any(|mask| {
+        let joined: Vec<&str> = parts.iter().enumerate().map(|(i, p)| if mask >> i & 1 == 0 { p.0.as_str() } else { p.1.as_str() }).collect();
+        joined.join("+") == obs
+    })
+}
+
 pub fn replay(args: &Args) -> i32 {
     let mut rep = Report::new();
     for b in read_ndjson(args.req("in")) {
@@ -106,8 +115,18 @@ pub fn replay(args: &Args) -> i32 {
         // explained by the listed deviations: every reported formula is either the ideal one or the one the
         // as-is model predicts (a behaviour that exhibits several deviations may have some of them repaired:
         // then part of the positions read ideal, the rest as-is; a third reading is never explained)
+        // per expected position, the per-atom (ideal, as-is) texts the model exported for it (members only)
+        let mut parts_of: Vec<Option<Vec<(String, String)>>> = vec![None];
+        for mem in b["members"].as_array().unwrap() {
+            parts_of.push(mem["parts"].as_array().map(|a| a.iter().map(|p| (text(&p["ideal"]), text(&p["asis"]))).collect()));
+        }
         let is_asis = match &got {
-            Ok(g) => g.len() == asis.len() && g.iter().zip(asis.iter().zip(ideal.iter())).all(|(o, (a, i))| o == a || o == i),
+            Ok(g) => g.len() == asis.len() && g.iter().enumerate().all(|(k, o)| {
+                *o == asis[k] || *o == ideal[k]
+                    // a member whose formula is, atom by atom, the ideal or the as-is text (some of the listed
+                    // deviations repaired); "" (no formula at all) only when the as-is model says so
+                    || (!o.is_empty() && parts_of.get(k).and_then(|p| p.as_ref()).map_or(false, |p| atomwise(o, p)))
+            }),
             Err(e) => e.starts_with("ERROR") && asis.iter().any(|a| a == "ERROR"),
         };
         let key = mismatch_key(&b["dev"], is_asis);
@@ -126,8 +145,8 @@ pub fn drive(args: &Args) -> i32 {
     let mut rng = StdRng::seed_from_u64(args.seed() ^ 0xC15);
     let mut out = std::io::BufWriter::new(std::fs::File::create(args.req("out")).unwrap());
     // (text, feature) atoms without references
-    let plain: [(&str, &str); 16] = [("SUM(", ""), (")", ""), ("+", ""), ("*", ""), (",", ""), ("\"x\"", ""), ("\"A3\"", ""), ("10", ""), ("1.5", ""),
-        ("Rate", ""), ("TRUE", ""), ("ZŁ1", ""), ("été", ""), ("LOG10(", "FuncDigits"), ("TAX2020", "NameCellLike"), ("1E5", "SciNumber")];
+    let plain: [(&str, &str); 18] = [("SUM(", ""), (")", ""), ("+", ""), ("*", ""), (",", ""), ("\"x\"", ""), ("\"A3\"", ""), ("10", ""), ("1.5", ""),
+        ("Rate", ""), ("TRUE", ""), ("ZŁ1", ""), ("été", ""), ("Q1Sales", ""), ("A1B", ""), ("LOG10(", "FuncDigits"), ("TAX2020", "NameCellLike"), ("1E5", "SciNumber")];
     let sheets: [(&str, &str); 4] = [("Data!", ""), ("'My Sheet'!", ""), ("AB1!", "SheetCellLike"), ("ст1!", "")];
     for run in 0..n {
         let off = (rng.gen_range(0..5i64), rng.gen_range(0..5i64));
@@ -136,9 +155,14 @@ pub fn drive(args: &Args) -> i32 {
         let mut ideal = String::new();
         let mut feats: Vec<&str> = Vec::new();
         let mut last_alnum = false;
+        // the lexical atoms (master text, ideal translation) the formula is the concatenation of: the trace
+        // spec explains a result atom by atom (ideal, or as-is when the atom exhibits a listed deviation)
+        let mut atoms: Vec<(String, String)> = Vec::new();
         for _ in 0..k {
+            let (s0, i0) = (s.len(), ideal.len());
             // keep identifiers apart: two alphanumeric atoms in a row would form a different lexeme
-            if last_alnum { s.push('+'); ideal.push('+'); }
+            if last_alnum { s.push('+'); ideal.push('+'); atoms.push(("+".into(), "+".into())); }
+            let (s0, i0) = if last_alnum { (s.len(), ideal.len()) } else { (s0, i0) };
             if rng.gen_bool(0.55) {
                 if rng.gen_bool(0.25) {
                     let (t, f) = sheets[rng.gen_range(0..sheets.len())];
@@ -159,13 +183,15 @@ pub fn drive(args: &Args) -> i32 {
                 if !f.is_empty() { feats.push(f); }
                 last_alnum = t.chars().last().map_or(false, |c| c.is_alphanumeric());
             }
+            atoms.push((s[s0..].to_string(), ideal[i0..].to_string()));
         }
         feats.sort();
         feats.dedup();
         let res = catch(|| calamine::verif::replace_cell_names(&s, off).map_err(|e| e.to_string()));
         let chars = |x: &str| x.chars().map(|c| c.to_string()).collect::<Vec<_>>();
+        let atoms_j: Vec<Value> = atoms.iter().map(|(a, i)| json!({"s": chars(a), "ideal": chars(i)})).collect();
         let ev = match res {
-            Ok(Ok(r)) => json!({"e": "replace", "run": run, "s": chars(&s), "dr": off.0, "dc": off.1, "res": chars(&r), "ideal": chars(&ideal), "feats": feats}),
+            Ok(Ok(r)) => json!({"e": "replace", "run": run, "s": chars(&s), "dr": off.0, "dc": off.1, "res": chars(&r), "ideal": chars(&ideal), "feats": feats, "atoms": atoms_j}),
             Ok(Err(e)) => json!({"e": "replace", "run": run, "s": chars(&s), "dr": off.0, "dc": off.1, "error": e, "ideal": chars(&ideal), "feats": feats}),
             Err(p) => json!({"e": "replace", "run": run, "s": chars(&s), "dr": off.0, "dc": off.1, "error": p, "ideal": chars(&ideal), "feats": feats}),
         };
